@@ -170,8 +170,8 @@ def _chunk(args):
                 if sum(1 for x in out['violations'] if vkey(x[4]) == vkey(v)) < max_viol:
                     out['violations'].append((i, seed, stratum, used, v))
                 break   # first relevant violation of the run decides
-            if mutant is not None and out['violations']:
-                break
+            if mutant is not None and any(not _listed(spec, x) for x in out['violations']):
+                break       # (a listed finding does not count as having caught the mutant)
     finally:
         faulthandler.cancel_dump_traceback_later()
     return out
@@ -256,7 +256,7 @@ def batch(ex, spec, tier, base_seed, n, *, mutant=None, only_stratum=None,
         for f in cf.as_completed(futs, timeout=wall_cap):
             part = f.result()
             _merge(total, part)
-            if stop_on_first and total['violations']:
+            if stop_on_first and any(not _listed(spec, x) for x in total['violations']):
                 for g in futs:
                     g.cancel()
                 break
@@ -424,6 +424,17 @@ def _minimise_job(args):
 # --------------------------------------------------------------------------
 # known findings
 # --------------------------------------------------------------------------
+
+_KNOWN_CACHE = {}
+
+
+def _listed(spec, viol_entry):
+    """Is this (i, seed, stratum, tape, violation) entry one of the listed (known) findings?"""
+    pid = spec.property_id
+    if pid not in _KNOWN_CACHE:
+        _KNOWN_CACHE[pid] = load_known(pid)[0]
+    return match_known(_KNOWN_CACHE[pid], viol_entry[4], viol_entry[2]) is not None
+
 
 def load_known(property_id):
     path = os.path.join(VERIF, 'known_findings.json')
